@@ -12,10 +12,24 @@
    constructor rules, injectivity / write exactness (all adaptors incl. stack and chain) and the
    linear-layout statement are proved for every term.  Not modelled: see notes/C02.md.
    Shared / mutable / unchecked access are ONE function in the model (`c_get`); that the three
-   Rust accessors resolve to the same address is cross-checked by the harness on every probe. *)
+   Rust accessors resolve to the same address is cross-checked by the harness on every probe.
+   Session 3 additions (Model/ViewsConv.v, Proofs/C02Conv.v, Proofs/C02Lay.v):
+   `ceq c c'` = observational equality of two constructed views (same view_shape, same source
+   element at every index, same data_layout, same leaves); `orel ceq o o'` = two constructor
+   outcomes of the same kind (Ok related by ceq / the same Err payload / both Panic).
+   - reference wrappers (Box<S>, &S, &mut S, erased boxes, RecordTensor) ANYWHERE in a composition
+     change nothing observable (C02_wrappers_transparent, C02_same_modulo_wrappers);
+   - the convenience constructors of Tensor / TensorView agree with the adaptor constructors
+     (C02_convenience_ctor_agrees);
+   - the two panic paths guarding contract clause 5 (TensorRename::data_layout,
+     TensorAccess::from_memory_order) fire exactly for a SOURCE that breaks the clause
+     (C02_contract_violation_panics_rename, .._memory_order), and no constructed view ever reaches them
+     (C02_layout_total);
+   - a 2-D view through MatrixRefTensor and TensorRefMatrix is its rename (C02_matrix_trip_is_rename). *)
 From Coq Require Import List ZArith NArith Bool Arith Permutation.
-From EasyML Require Import Base.Sx Model.Shape Model.Views Model.ViewsMut Proofs.ShapeP Proofs.C01P
-  Proofs.C02Lemmas Proofs.C02P Proofs.C02Q Proofs.C02Inj Proofs.C02W Proofs.C02Lin Proofs.C02Mut.
+From EasyML Require Import Base.Sx Model.Shape Model.Views Model.ViewsMut Model.ViewsConv Proofs.ShapeP
+  Proofs.C01P Proofs.C02Lemmas Proofs.C02P Proofs.C02Q Proofs.C02Inj Proofs.C02W Proofs.C02Lin
+  Proofs.C02Mut Proofs.C02Conv Proofs.C02Lay.
 Import ListNotations.
 Open Scope N_scope.
 
@@ -192,6 +206,74 @@ Theorem C02_transpose_layout_as_written_refuted :
     memory_walk false c = Some [Some (0, 0); Some (0, 1); Some (0, 2); Some (0, 3)].
 Proof. exact transpose_layout_as_written_refuted. Qed.
 
+(* ---- reference wrappers and convenience constructors (session 3) ----
+   Removing every Box<S> / &S / &mut S / erased / RecordTensor wrapper anywhere in a term changes no
+   constructor outcome (same error payload, same panic) and no observable of the constructed view. *)
+Theorem C02_wrappers_transparent : forall v, orel ceq (v_ctor v) (v_ctor (strip_wraps v)).
+Proof. exact wraps_transparent. Qed.
+
+Theorem C02_same_modulo_wrappers : forall v w, strip_wraps v = strip_wraps w ->
+  orel ceq (v_ctor v) (v_ctor w).
+Proof. exact same_modulo_wraps. Qed.
+
+(* Tensor / TensorView::{range, mask, select, expand, reverse, index_by}(_mut / _owned),
+   rename_view, transpose_view = the adaptor constructor over the source, whatever the receiver form *)
+Theorem C02_convenience_ctor_agrees : forall f src,
+  (forall named, orel ceq (v_ctor (conv_range f src named)) (v_ctor (VRange src (PNamed false named)))) /\
+  (forall named, orel ceq (v_ctor (conv_mask f src named)) (v_ctor (VMask src (PNamed false named)))) /\
+  (forall p, orel ceq (v_ctor (conv_select f src p)) (v_ctor (VIndex src [p]))) /\
+  (forall e, orel ceq (v_ctor (conv_expand f src e)) (v_ctor (VExpand src [e]))) /\
+  (forall ns, orel ceq (v_ctor (conv_reverse f src ns)) (v_ctor (VReverse src ns))) /\
+  (forall ns, orel ceq (v_ctor (conv_rename_view src ns)) (v_ctor (VRename src ns))) /\
+  (forall ns, orel ceq (v_ctor (conv_transpose_view src ns)) (v_ctor (VTranspose src ns))) /\
+  (forall ns, orel ceq (v_ctor (conv_index_by f src ns)) (v_ctor (VAccess src ns))).
+Proof. exact convenience_agrees. Qed.
+
+(* ---- the panic paths guarding TensorRef contract clause 5 (session 3) ----
+   data_layout of a rename / transposition is a function of the SOURCE's (view_shape, data_layout): *)
+Theorem C02_layout_of_source : forall c ns tbl,
+  c_layout (CRename c ns) = obind (c_layout c) (rename_layout (c_shape c) ns) /\
+  c_layout (CTranspose c tbl) = omap (transposed_layout (c_shape c) tbl) (c_layout c).
+Proof. exact (fun c ns tbl => conj (rename_layout_is c ns false) (transposed_layout_is c tbl)). Qed.
+
+(* TensorRename::data_layout panics exactly when the source claims a Linear order with a name that
+   is not in its view_shape; every other layout passes through *)
+Theorem C02_contract_violation_panics_rename : forall sh ns order,
+  rename_layout sh ns (Linear order) = Panic <-> ~ incl order (names_of sh).
+Proof. exact rename_layout_panic_iff. Qed.
+
+(* TensorAccess::from_memory_order panics exactly when the claimed order is not a permutation of
+   the view_shape's names *)
+Theorem C02_contract_violation_panics_memory_order : forall sh order,
+  NoDup (names_of sh) -> length order = length sh ->
+  (memory_order_tbl sh (Linear order) = Panic <-> ~ Permutation (names_of sh) order).
+Proof. exact memory_order_panic_iff. Qed.
+
+(* no constructed view (any term, any depth) reaches those paths: its layout is reported, the
+   memory-order access exists exactly when the layout is Linear, and any rename of it reports too *)
+Theorem C02_layout_total : forall v c, v_ctor v = Ok c -> usize_view c ->
+  exists lay o, c_layout c = Ok lay /\ memory_order_tbl (c_shape c) lay = Ok o /\
+    (forall order, lay = Linear order -> o <> None) /\
+    forall ns c', rename_ctor c ns = Ok c' -> exists lay', c_layout c' = Ok lay'.
+Proof. exact ctor_layout_total. Qed.
+
+(* ---- interop (session 3): view -> MatrixRefTensor -> TensorRefMatrix::with_names ----
+   the trip exposes exactly the rename of the view to [n0; n1] (same shape rule, same element at
+   every index); equal names are an InvalidShapeError (not a panic); the layout is the rename's
+   whenever the view's Linear order is one of the two orders of its names, and Other otherwise *)
+Theorem C02_matrix_trip_is_rename : forall c r0 k0 rows cols n0 n1,
+  c_shape c = [(r0, rows); (k0, cols)] -> r0 <> k0 -> 0 < rows -> 0 < cols ->
+  (n0 = n1 -> matrix_trip c n0 n1 = Err (e_shape [(n0, rows); (n1, cols)])) /\
+  (n0 <> n1 -> forall lay, c_layout c = Ok lay ->
+     exists lay', matrix_trip c n0 n1 = Ok (c_shape (CRename c [n0; n1]), lay', c_get (CRename c [n0; n1])) /\
+       match lay with
+       | Linear order =>
+           (order = [r0; k0] \/ order = [k0; r0]) -> c_layout (CRename c [n0; n1]) = Ok lay'
+       | NonLinear => lay' = Other
+       | Other => lay' = Other
+       end).
+Proof. exact matrix_trip_is_rename. Qed.
+
 (* non-vacuity: reversal over a mask over a chain of a range and an expansion-of-a-selection, then
    transposed: constructible, usize, with a present index resolving into the second chained
    source and an absent one *)
@@ -216,6 +298,33 @@ Proof.
   cbn. repeat constructor; vm_compute; discriminate.
 Qed.
 
+(* non-vacuity of the session-3 statements: Tensor::reverse(&self) then TensorView::range_mut over a
+   boxed leaf is observationally the plain composition; a transposed access of a 2x3 leaf is
+   column major as a matrix and Linear[n1; n0] after the trip; a foreign layout panics the rename *)
+Example C02_nonvacuous_conv :
+  let leaf := VTensor 1 [(0%nat, 2); (1%nat, 3)] in
+  (exists c c', v_ctor (conv_range ByMut (conv_reverse ByRef (VWrap leaf) [1%nat]) [(1%nat, mkR 1 2)]) = Ok c /\
+     v_ctor (VRange (VReverse leaf [1%nat]) (PNamed false [(1%nat, mkR 1 2)])) = Ok c' /\
+     ceq c c' /\ c_get c [1; 0] = Some (1, 4)) /\
+  (exists c, v_ctor (VAccess leaf [1; 0]%nat) = Ok c /\
+     matrix_ref_tensor_layout (c_shape c) (Linear [0; 1]%nat) = ColumnMajor /\
+     exists g, matrix_trip c 5%nat 6%nat = Ok ([(5%nat, 3); (6%nat, 2)], Linear [6; 5]%nat, g)) /\
+  rename_layout [(0%nat, 2); (1%nat, 3)] [5; 6]%nat (Linear [0; 9]%nat) = Panic /\
+  memory_order_tbl [(0%nat, 2); (1%nat, 3)] (Linear [0; 0]%nat) = Panic.
+Proof.
+  cbv zeta. split; [|split; [|split; reflexivity]].
+  - pose proof (C02_same_modulo_wrappers
+      (conv_range ByMut (conv_reverse ByRef (VWrap (VTensor 1 [(0%nat, 2); (1%nat, 3)])) [1%nat]) [(1%nat, mkR 1 2)])
+      (VRange (VReverse (VTensor 1 [(0%nat, 2); (1%nat, 3)]) [1%nat]) (PNamed false [(1%nat, mkR 1 2)]))
+      eq_refl) as H.
+    destruct (v_ctor (conv_range _ _ _)) as [c| |] eqn:E1; try (vm_compute in E1; discriminate).
+    destruct (v_ctor (VRange _ _)) as [c'| |] eqn:E2; try (vm_compute in E2; discriminate).
+    exists c, c'. repeat split; try apply H.
+    vm_compute in E1. injection E1 as <-. vm_compute. reflexivity.
+  - eexists. split; [vm_compute; reflexivity|]. split; [vm_compute; reflexivity|].
+    eexists. vm_compute. reflexivity.
+Qed.
+
 Print Assumptions C02_wf.
 Print Assumptions C02_present_iff.
 Print Assumptions C02_out_of_range_absent.
@@ -235,5 +344,13 @@ Print Assumptions C02_injective.
 Print Assumptions C02_write_exact.
 Print Assumptions C02_source_mutation_keeps_contract.
 Print Assumptions C02_linear_layout.
+Print Assumptions C02_wrappers_transparent.
+Print Assumptions C02_same_modulo_wrappers.
+Print Assumptions C02_convenience_ctor_agrees.
+Print Assumptions C02_layout_of_source.
+Print Assumptions C02_contract_violation_panics_rename.
+Print Assumptions C02_contract_violation_panics_memory_order.
+Print Assumptions C02_layout_total.
+Print Assumptions C02_matrix_trip_is_rename.
 Print Assumptions C02_linear_layout_enumerated.
 Print Assumptions C02_transpose_layout_as_written_refuted.
